@@ -66,7 +66,7 @@ type controller struct {
 	progress int64 // bumped on every park / finish / op boundary
 	clock    int64 // logical time: bumped on every recorded boundary
 	live     int32
-	done     bool // after the schedule: nothing parks any more
+	done     bool        // after the schedule: nothing parks any more
 	badconn  map[int]int // gid -> remaining driver calls to fail with ErrBadConn
 	faults   []fault
 	inTx     [8]int32 // per goroutine: inside the body of a Transaction block (open transaction)
@@ -186,12 +186,32 @@ type Op struct {
 	Arg  int
 	Sub  []Op // tx body (q only)
 	Via  int  // 0 = Config.PrepareStmt handle, 1 = Session{PrepareStmt:true} handle
+	Row  bool // q: read through Row() (QueryRowContext) instead of Scan (QueryContext)
+}
+
+// query runs the read o through h and returns the value and the error.
+func query(h *gorm.DB, o Op) (val int, err error) {
+	if o.Row {
+		row := h.Raw(texts[o.Text], o.Arg).Row()
+		if row == nil {
+			// documented: Row() yields nil when the handle already carries an error (the handle of a
+			// Connection block is one statement, an earlier member's error stays on it) - in any mode
+			return 0, fmt.Errorf("Row() returned nil, the handle carries: %v", h.Error)
+		}
+		err = row.Scan(&val)
+		return
+	}
+	err = h.Raw(texts[o.Text], o.Arg).Scan(&val).Error
+	return
 }
 
 func (o Op) String() string {
 	via := []string{"cfg", "sess"}[o.Via]
 	switch o.Kind {
 	case "q":
+		if o.Row {
+			return fmt.Sprintf("row%d(%d)@%s", o.Text, o.Arg, via)
+		}
 		return fmt.Sprintf("q%d(%d)@%s", o.Text, o.Arg, via)
 	case "e":
 		return "e@" + via
@@ -364,10 +384,11 @@ func genProgram(t *rapid.T, g int, mode string, allowClose bool) []Op {
 		case "q":
 			o.Text = rapid.IntRange(0, len(texts)-1).Draw(t, "text")
 			o.Arg = rapid.IntRange(1, nItems).Draw(t, "arg")
+			o.Row = rapid.IntRange(0, 3).Draw(t, "row") == 0
 		case "tx", "conn":
 			m := rapid.IntRange(1, 2).Draw(t, "txlen")
 			for j := 0; j < m; j++ {
-				o.Sub = append(o.Sub, Op{Kind: "q", Via: via,
+				o.Sub = append(o.Sub, Op{Kind: "q", Via: via, Row: rapid.IntRange(0, 3).Draw(t, "row") == 0,
 					Text: rapid.IntRange(0, len(texts)-1).Draw(t, "text"), Arg: rapid.IntRange(1, nItems).Draw(t, "arg")})
 			}
 		}
@@ -426,7 +447,7 @@ func runCase(rt *rapid.T) {
 				switch o.Kind {
 				case "q":
 					r := opResult{gid: gid, op: o, start: ctl.tick()}
-					r.err = e.handle(o.Via, ctx).Raw(texts[o.Text], o.Arg).Scan(&r.val).Error
+					r.val, r.err = query(e.handle(o.Via, ctx), o)
 					r.end = ctl.tick()
 					record(r)
 				case "e":
@@ -441,7 +462,7 @@ func runCase(rt *rapid.T) {
 						defer atomic.StoreInt32(&ctl.inTx[gid], 0)
 						for _, s := range o.Sub {
 							r := opResult{gid: gid, op: s, inTx: true, start: ctl.tick()}
-							r.err = tx.Raw(texts[s.Text], s.Arg).Scan(&r.val).Error
+							r.val, r.err = query(tx, s)
 							r.end = ctl.tick()
 							record(r)
 						}
@@ -457,7 +478,7 @@ func runCase(rt *rapid.T) {
 							// inTx also marks members of a dedicated-connection block: like a transaction it
 							// is bound to one connection, and a dead connection fails the rest of the block
 							r := opResult{gid: gid, op: s, inTx: true, start: ctl.tick()}
-							r.err = tx.Raw(texts[s.Text], s.Arg).Scan(&r.val).Error
+							r.val, r.err = query(tx, s)
 							r.end = ctl.tick()
 							record(r)
 						}
@@ -790,6 +811,13 @@ func runCase(rt *rapid.T) {
 					boundary = true
 				}
 			}
+			// ... and so does every later member of a block whose connection is dead: it gets ErrBadConn for
+			// its own text without a fault of its own, and the cache evicts that text's entry as well
+			for _, r := range results {
+				if r.op.Kind == "q" && texts[r.op.Text] == a.text && r.err != nil && isErr(r.err, driver.ErrBadConn) && r.end >= lo && r.start <= hi {
+					boundary = true
+				}
+			}
 			for _, c := range cevs {
 				if c.end >= lo && c.start <= hi {
 					boundary = true
@@ -987,7 +1015,6 @@ func TestC14WitnessResetSessionHandle(t *testing.T) {
 	_ = os.Getenv
 }
 
-
 // A Session{PrepareStmt:true} handle derived before the cache is closed through another handle
 // keeps the detached statement map: it goes on preparing into it and nothing ever closes those
 // statements.
@@ -1018,4 +1045,160 @@ func TestC14WitnessCloseStaleSessionHandle(t *testing.T) {
 	if n := e.rec.OpenStmts(); n != 0 {
 		t.Fatalf("C14 violated: %d statement(s) prepared after Close through a handle derived before it are never closed (err of that query: %v)", n, err)
 	}
+}
+
+// ---- bounded pool, one goroutine ---------------------------------------------------------------------
+//
+// "No goroutine deadlocks": a single goroutine that holds the pool's only connection (Transaction or
+// Connection block) must be able to run any statement inside the block - the cache has to prepare on the
+// connection the block owns, never on the pool. Concurrent use of a bounded pool is not generated here
+// (listed finding C07 preparestmt-bounded-pool: two goroutines, one pool slot).
+func TestC14BoundedPool(t *testing.T) {
+	rapid.Check(t, func(rt *rapid.T) {
+		mode := rapid.SampledFrom([]string{"config", "session"}).Draw(rt, "mode")
+		maxOpen := rapid.IntRange(1, 2).Draw(rt, "maxOpen")
+		via := 0
+		if mode == "session" {
+			via = 1
+		}
+		genQ := func(label string) Op {
+			return Op{Kind: "q", Via: via, Row: rapid.Bool().Draw(rt, label+".row"),
+				Text: rapid.IntRange(0, len(texts)-1).Draw(rt, label+".text"), Arg: rapid.IntRange(1, nItems).Draw(rt, label+".arg")}
+		}
+		n := rapid.IntRange(1, 6).Draw(rt, "len")
+		var prog []Op
+		for i := 0; i < n; i++ {
+			k := rapid.SampledFrom([]string{"q", "q", "e", "tx", "tx", "conn", "reset"}).Draw(rt, fmt.Sprintf("op%d", i))
+			o := Op{Kind: k, Via: via}
+			switch k {
+			case "q":
+				o = genQ(fmt.Sprintf("op%d", i))
+			case "tx", "conn":
+				for j, m := 0, rapid.IntRange(1, 3).Draw(rt, "blocklen"); j < m; j++ {
+					o.Sub = append(o.Sub, genQ(fmt.Sprintf("op%d.%d", i, j)))
+				}
+				if k == "tx" && maxOpen == 2 && rapid.Bool().Draw(rt, "nested") {
+					// a second block inside the first: holds both connections
+					inner := Op{Kind: "tx", Via: via}
+					for j, m := 0, rapid.IntRange(1, 2).Draw(rt, "innerlen"); j < m; j++ {
+						inner.Sub = append(inner.Sub, genQ(fmt.Sprintf("op%d.in%d", i, j)))
+					}
+					o.Sub = append(o.Sub, inner)
+				}
+			}
+			prog = append(prog, o)
+		}
+		desc := fmt.Sprintf("mode=%s maxOpen=%d prog=%v", mode, maxOpen, prog)
+		e := newEnv(mode)
+		defer e.close()
+		e.sqlDB.SetMaxOpenConns(maxOpen)
+		ctx := context.Background() // no goroutine id: nothing parks
+
+		type verdict struct{ msg string }
+		done := make(chan verdict, 1)
+		var at atomic.Value
+		at.Store("start")
+		go func() {
+			var runBlock func(h *gorm.DB, o Op) string
+			member := func(h *gorm.DB, s Op) string {
+				at.Store(s.String())
+				v, err := query(h, s)
+				if err != nil {
+					return fmt.Sprintf("%s returned error %v (non-prepared mode returns %d)", s, err, wantValue(s.Text, s.Arg))
+				}
+				if v != wantValue(s.Text, s.Arg) {
+					return fmt.Sprintf("%s returned %d, non-prepared mode returns %d", s, v, wantValue(s.Text, s.Arg))
+				}
+				return ""
+			}
+			runBlock = func(h *gorm.DB, o Op) string {
+				msg := ""
+				body := func(tx *gorm.DB) error {
+					for _, s := range o.Sub {
+						if s.Kind == "tx" {
+							// an independent transaction on the root handle while this one is open
+							if msg = runBlock(e.handle(via, ctx), s); msg != "" {
+								return nil
+							}
+							continue
+						}
+						if msg = member(tx, s); msg != "" {
+							return nil
+						}
+					}
+					return nil
+				}
+				var err error
+				if o.Kind == "tx" {
+					err = h.Transaction(body)
+				} else {
+					err = h.Connection(body)
+				}
+				if msg == "" && err != nil {
+					msg = fmt.Sprintf("%s returned error %v", o, err)
+				}
+				return msg
+			}
+			for _, o := range prog {
+				at.Store(o.String())
+				msg := ""
+				switch o.Kind {
+				case "q":
+					msg = member(e.handle(via, ctx), o)
+				case "e":
+					if err := e.handle(via, ctx).Exec("INSERT INTO priv1 (n) VALUES (?)", 1).Error; err != nil {
+						msg = "insert returned error " + err.Error()
+					}
+				case "tx", "conn":
+					msg = runBlock(e.handle(via, ctx), o)
+				case "reset":
+					e.cache(via).Reset()
+				}
+				if msg != "" {
+					done <- verdict{msg}
+					return
+				}
+			}
+			done <- verdict{}
+		}()
+		hasBlockRow, hasNested := false, false
+		for _, o := range prog {
+			for _, s := range o.Sub {
+				hasBlockRow = hasBlockRow || s.Row
+				hasNested = hasNested || s.Kind == "tx"
+			}
+		}
+		cl := []string{"mode:" + mode, fmt.Sprintf("pool:%d", maxOpen)}
+		if hasBlockRow {
+			cl = append(cl, "block-member:Row()")
+		}
+		if hasNested {
+			cl = append(cl, "block:second-transaction-inside")
+		}
+		nontrivial := false
+		for _, o := range prog {
+			nontrivial = nontrivial || ((o.Kind == "tx" || o.Kind == "conn") && maxOpen == 1) || hasNested
+		}
+		evid.Case("bounded: "+desc, nontrivial, desc, cl...)
+		select {
+		case v := <-done:
+			if v.msg != "" {
+				rt.Fatalf("C14 violated (bounded pool, one goroutine): %s\ncase: %s", v.msg, desc)
+			}
+		case <-time.After(10 * time.Second):
+			buf := make([]byte, 1<<16)
+			k := runtime.Stack(buf, true)
+			msg := fmt.Sprintf("C14 violated: deadlock - a single goroutine on a pool of %d connection(s) did not finish %s within 10s (the statement cache waits for a pool connection while the block holds it)\ncase: %s\n%s", maxOpen, at.Load(), desc, buf[:k])
+			fmt.Println("VERIF-FAILURE-BEGIN\n" + msg + "\nVERIF-FAILURE-END")
+			rt.Fatalf("%s", msg)
+		}
+		e.cache(via).Close()
+		deadline := time.Now().Add(3 * time.Second)
+		for e.rec.OpenStmts() != 0 && time.Now().Before(deadline) {
+			time.Sleep(200 * time.Microsecond)
+		}
+		if k := e.rec.OpenStmts(); k != 0 {
+			rt.Fatalf("C14 violated (bounded pool, one goroutine): %d prepared statement(s) still open after Close\ncase: %s", k, desc)
+		}
+	})
 }
